@@ -47,6 +47,18 @@ def run(ctx):
     wmeans(ctx)
     prng(ctx)
     keys1(ctx)
+    seed_honoured(ctx)
+
+
+def seed_honoured(ctx):
+    """DET-1: a fixed seed means a fixed run: the set-up keeps whatever seed the user supplied (0 included) and the
+    driver derives its key from options['seed'] and the rank only."""
+    from .c16 import option_defaults_of
+    rd = ctx.p.func("mpi_jax._prep_afqmc")
+    ok = "seed" in option_defaults_of(rd)
+    ctx.ob("DET-1", "_prep_afqmc: a user-supplied options['seed'] is kept for every value", ok,
+           "options['seed'] = options.get('seed', <random default>)" if ok else
+           "the seed is not defaulted with get / setdefault / `not in`: a falsy user seed (0) is replaced by a random one", rd)
 
 
 def sib1(ctx):
@@ -149,6 +161,8 @@ def capping(ctx):
     ok, msg, ns, d = wm
     ctx.ob("WMEAN-1", "sampler._block_scan: block energy normalised by the weights it averages over", ok,
            msg, fi)
+    okp, msgp, _ = common.block_estimator_population(p)
+    ctx.ob("WMEAN-1", "sampler._block_scan: the block estimator averages over the stored population weights", okp, msgp, fi)
     pd_w = None
     facs = [strip_wrappers(x) for x in product_factors(ns)]
     samples = [f for f in facs if f is not d]
